@@ -31,7 +31,8 @@ def cases(tier, seed):
     reps = 1 if tier == "quick" else 8
     for _ in range(reps):
         for t, rank, n1, n2 in itertools.product([2, 3], [1, 2], [1, 4], [3]):
-            yield {"kind": "multitask", "t": t, "rank": rank, "n1": n1, "n2": n2, "seed": rnd.randrange(10**6)}
+            for data in ("matern_ard", "linear", "poly", "kiss"):
+                yield {"kind": "multitask", "t": t, "rank": rank, "n1": n1, "n2": n2, "data": data, "seed": rnd.randrange(10**6)}
             yield {"kind": "lcm", "t": t, "rank": rank, "n1": n1, "n2": n2, "seed": rnd.randrange(10**6)}
         for t, rank in itertools.product([2, 4], [1, 2]):
             yield {"kind": "index", "t": t, "rank": rank, "seed": rnd.randrange(10**6)}
@@ -49,8 +50,8 @@ def cases(tier, seed):
             if not model.startswith("kiss") and not tz:
                 continue
             yield {"kind": "strategy", "model": model, "max_cholesky_size": chol, "fast_pred_var": fpv, "sgpr_diagonal_correction": corr, "use_toeplitz": tz, "seed": rnd.randrange(10**6)}
-        for m in (2, 4):
-            yield {"kind": "sgpr_bound", "m": m, "seed": rnd.randrange(10**6)}
+        for m, lk in itertools.product((2, 4), ("gaussian", "fixed", "fixed_learned")):
+            yield {"kind": "sgpr_bound", "m": m, "lik": lk, "seed": rnd.randrange(10**6)}
         for mean, depth, dims in itertools.product([0.0, 1.2], [1, 2], [1, 2]):
             yield {"kind": "wiski_fantasy", "mean": mean, "depth": depth, "dims": dims, "seed": rnd.randrange(10**6)}
         for sizes in ([12], [16], [9, 14], [14, 9], [8, 8], [6, 7, 8]):
@@ -97,7 +98,14 @@ def _multitask(case, ctx, g):
     from vf import util
 
     K = gpytorch.kernels
-    mk = K.MultitaskKernel(K.ScaleKernel(K.MaternKernel(nu=1.5, ard_num_dims=2)), num_tasks=case["t"], rank=case["rank"])
+    data = {
+        "matern_ard": lambda: K.ScaleKernel(K.MaternKernel(nu=1.5, ard_num_dims=2)),
+        # prior variance varying from point to point: the diagonal has to follow the per-point interleaved layout
+        "linear": lambda: K.LinearKernel(),
+        "poly": lambda: K.ScaleKernel(K.PolynomialKernel(power=2)),
+        "kiss": lambda: K.GridInterpolationKernel(K.RBFKernel(), grid_size=8, num_dims=2, grid_bounds=[(-4.0, 4.0)] * 2),
+    }[case.get("data", "matern_ard")]()
+    mk = K.MultitaskKernel(data, num_tasks=case["t"], rank=case["rank"])
     util.randomize(mk, g, 0.6)
     X, X2 = util.randn(g, case["n1"], 2), util.randn(g, case["n2"], 2)
     cf, var = mk.task_covar_module.covar_factor.detach(), mk.task_covar_module.var.detach()
@@ -106,7 +114,12 @@ def _multitask(case, ctx, g):
     ctx.close("multitask_kron", mk(X, X2).to_dense(), torch.kron(Kd, B), "direct", cls="multitask:lazy")
     ctx.close("multitask_kron", _eager(mk, X, X2), torch.kron(Kd, B), "direct", cls="multitask:eager")
     Kxx = _eager(mk.data_covar_module, X, X)
-    ctx.close("multitask_kron", mk(X, diag=True), torch.diagonal(torch.kron(Kxx, B)), "direct", cls="multitask:diag")
+    tol = (1e-6, 1e-6) if case.get("data") == "kiss" else "direct"  # float32 grid buffers
+    ctx.close("multitask_kron", mk(X, diag=True), torch.diagonal(torch.kron(Kxx, B)), tol, cls="multitask:diag")
+    with torch.no_grad():
+        ctx.close("multitask_kron", mk(X).diagonal(dim1=-1, dim2=-2), torch.diagonal(torch.kron(Kxx, B)), tol, cls="multitask:lazy.diagonal")
+        mvn = gpytorch.distributions.MultitaskMultivariateNormal(torch.zeros(case["n1"], case["t"]), mk(X))
+        ctx.close("multitask_kron", mvn.variance.reshape(-1), torch.diagonal(torch.kron(Kxx, B)), tol, cls="multitask:mtmvn.variance")
 
 
 def _lcm(case, ctx, g):
@@ -116,7 +129,7 @@ def _lcm(case, ctx, g):
     from vf import util
 
     K = gpytorch.kernels
-    lk = K.LCMKernel([K.RBFKernel(), K.MaternKernel(nu=2.5), K.ScaleKernel(K.RQKernel())], num_tasks=case["t"], rank=case["rank"])
+    lk = K.LCMKernel([K.RBFKernel(), K.MaternKernel(nu=2.5), K.ScaleKernel(K.RQKernel()), K.LinearKernel()], num_tasks=case["t"], rank=case["rank"])
     util.randomize(lk, g, 0.6)
     X, X2 = util.randn(g, case["n1"], 2), util.randn(g, case["n2"], 2)
     ref = 0
@@ -124,6 +137,11 @@ def _lcm(case, ctx, g):
         cf, var = mk.task_covar_module.covar_factor.detach(), mk.task_covar_module.var.detach()
         ref = ref + torch.kron(_eager(mk.data_covar_module, X, X2), cf @ cf.T + torch.diag(var))
     ctx.close("lcm_kernel", lk(X, X2).to_dense(), ref, "direct", cls="lcm")
+    refxx = 0
+    for mk in lk.covar_module_list:
+        cf, var = mk.task_covar_module.covar_factor.detach(), mk.task_covar_module.var.detach()
+        refxx = refxx + torch.kron(_eager(mk.data_covar_module, X, X), cf @ cf.T + torch.diag(var))
+    ctx.close("lcm_kernel", lk(X, diag=True), torch.diagonal(refxx), "direct", cls="lcm:diag")
 
 
 def _index(case, ctx, g):
@@ -341,8 +359,12 @@ def _sgpr_bound(case, ctx, g):
     from vf import util
 
     K = gpytorch.kernels
-    lik = gpytorch.likelihoods.GaussianLikelihood()
     n = 10
+    lk = case.get("lik", "gaussian")
+    if lk == "gaussian":
+        lik = gpytorch.likelihoods.GaussianLikelihood()
+    else:
+        lik = gpytorch.likelihoods.FixedNoiseGaussianLikelihood(0.05 + util.rand(g, n), learn_additional_noise=lk == "fixed_learned")
     X = util.randn(g, n, 2)
     y = torch.sin(X.sum(-1)) + 0.1 * util.randn(g, n)
     kern = K.InducingPointKernel(K.ScaleKernel(K.MaternKernel(nu=2.5)), inducing_points=util.randn(g, case["m"], 2), likelihood=lik)
@@ -356,13 +378,19 @@ def _sgpr_bound(case, ctx, g):
         Z = kern.inducing_points.detach()
         bk = kern.base_kernel
         Kzz, Kxz, Kxx = _eager(bk, Z, Z), _eager(bk, X, Z), _eager(bk, X, X)
-        s2 = lik.noise.detach()
+        # per-point noise variances (homoskedastic: all equal; fixed noise: the stored values [+ the learned extra noise])
+        if lk == "gaussian":
+            s2 = lik.noise.detach().reshape(-1).expand(n).clone()
+        else:
+            s2 = lik.noise_covar.noise.detach().reshape(-1).clone()
+            if lk == "fixed_learned":
+                s2 = s2 + lik.second_noise.detach().reshape(-1)
         mx = m.mean_module(X)
         refs = []
         for j in (1e-8, 0.0):
             Q = Kxz @ torch.linalg.inv(Kzz + j * torch.eye(case["m"])) @ Kxz.T
-            refs.append(util.mvn_logpdf(y, mx, Q + s2 * torch.eye(n)) - 0.5 * (torch.diagonal(Kxx) - torch.diagonal(Q)).sum() / s2.squeeze())
-    ctx.close("sgpr_titsias_bound", got, refs[0], (1e-6, 1e-7), cls="sgpr:bound", alt=refs[1])
+            refs.append(util.mvn_logpdf(y, mx, Q + torch.diag(s2)) - 0.5 * ((torch.diagonal(Kxx) - torch.diagonal(Q)) / s2).sum())
+    ctx.close("sgpr_titsias_bound", got, refs[0], (1e-6, 1e-7), cls="sgpr:bound:" + lk, alt=refs[1])
     # textbook SGPR predictive equations (Titsias 2009), diagonal correction off
     m.eval()
     lik.eval()
@@ -370,9 +398,9 @@ def _sgpr_bound(case, ctx, g):
     with S.sgpr_diagonal_correction(False), torch.no_grad():
         out = m(xs)
         Ksz, Kss = _eager(bk, xs, Z), _eager(bk, xs, xs)
-        Sig = torch.linalg.inv(Kzz + Kxz.T @ Kxz / s2)
+        Sig = torch.linalg.inv(Kzz + Kxz.T @ (Kxz / s2.unsqueeze(-1)))
         ms = m.mean_module(xs)
-        mean = ms + Ksz @ Sig @ Kxz.T @ (y - mx) / s2
+        mean = ms + Ksz @ Sig @ Kxz.T @ ((y - mx) / s2)
         cov = Kss - Ksz @ torch.linalg.inv(Kzz) @ Ksz.T + Ksz @ Sig @ Ksz.T
     ctx.close("sgpr_predictive_equations", out.mean, mean, (1e-5, 1e-5), cls="sgpr:pred_mean")
     ctx.close("sgpr_predictive_equations", out.covariance_matrix, cov, (1e-5, 1e-5), cls="sgpr:pred_cov")
